@@ -26,6 +26,7 @@ type Contract struct {
 	Pure       bool
 	LoopInv    map[int][]*Clause
 	Inline     bool
+	Iterator   bool // calls its func argument an arbitrary number of times (see calls.go: iteratorCall)
 	Trusted    bool
 	TrustedWhy string
 	MayPanic   bool
@@ -162,6 +163,10 @@ func (w *World) loadContractFile(path string) error {
 		case "inline":
 			if cur != nil {
 				cur.Inline = true
+			}
+		case "iterator":
+			if cur != nil {
+				cur.Iterator = true
 			}
 		case "pure":
 			if cur != nil {
